@@ -420,9 +420,12 @@ class Logbook(list):
             del log[0]
             del log[1::5]
         """
+        item = super(self.__class__, self).pop(index)
+        if index < 0:
+            index += len(self) + 1
         if index < self.buffindex:
             self.buffindex -= 1
-        return super(self.__class__, self).pop(index)
+        return item
 
     def __txt__(self, startindex):
         columns = self.header
